@@ -311,4 +311,39 @@ def checkGrammar (_params : List String) (lines : List String) : CaseResult := I
   let forks := ts.any (fun t => match t with | .flow _ fs => fs.length ≥ 2 | _ => false)
   return { r with nontrivial := forks }
 
+/-- Family `c09x` (shutdown phase): params `<senders> <per sender> <cancel position> <subscribers>`; lines
+`sub <i> cap=<c> pace=<p> recv=<s:q,…>`. Every subscriber was subscribed before the first send and stayed until its
+channel was closed: each must hold ALL traces, all in the same order, each sender's traces in program order. -/
+def checkShutdown (params : List String) (lines : List String) : CaseResult := Id.run do
+  let (nSend, per) := match params with
+    | a :: b :: _ => (a.toNat?.getD 0, b.toNat?.getD 0)
+    | _ => (0, 0)
+  let mut r : CaseResult := {}
+  let mut subs : Array (String × List Msg) := #[]
+  for ln in lines do
+    match words ln with
+    | "sub" :: i :: rest =>
+      let rv := (kv rest "recv").getD "-"
+      let ms := if rv == "-" then some [] else (rv.splitOn ",").mapM parseMsg
+      match ms with
+      | some ms => subs := subs.push (i, ms)
+      | none => r := { r with bad := s!"unreadable {ln}" :: r.bad }
+    | ["blocked", who] =>
+      r := { r with specs := s!"shutdown_blocks: the {who} did not finish within 5 s of the tracer's context being cancelled" :: r.specs }
+    | _ => r := { r with bad := s!"unknown line {ln}" :: r.bad }
+  if !r.specs.isEmpty || !r.bad.isEmpty then return r
+  match subs.toList with
+  | [] => return { r with bad := ["no subscriber lines"] }
+  | (_, w) :: rest =>
+    if w.length != nSend * per then
+      r := { r with specs := s!"shutdown_trace_dropped: subscriber 0 holds {w.length} of {nSend * per} traces when its channel is closed" :: r.specs }
+    for (i, ms) in rest do
+      if ms.map showMsg != w.map showMsg then
+        r := { r with specs := s!"shutdown_subscribers_differ: subscriber {i} holds {ms.length} traces, subscriber 0 holds {w.length}; first difference at position {((ms.zip w).takeWhile (fun (a, b) => showMsg a == showMsg b)).length}" :: r.specs }
+    for s in List.range nSend do
+      let qs := (w.filter (·.sender == s)).map (·.seq)
+      if qs != List.range qs.length then
+        r := { r with specs := s!"shutdown_sender_order: traces of sender {s} arrive as {qs}" :: r.specs }
+    return { r with nontrivial := subs.size ≥ 2 }
+
 end Bpmn.Driver.C09
